@@ -367,7 +367,7 @@ def c_order(F, res, rule="C-ORDER", specs=ORDER_SPECS):
             continue
         w = where(f)
         try:
-            ep = ordering.EntryPredicate(F, f)
+            ep = ordering.predicate(F, f)
             lits, rows = ep.table(uses_get=uses_get)
             ex = ep.exhausted_result()
         except ordering.Shape as e:
